@@ -44,6 +44,7 @@ type c15Box struct {
 	outIno  map[uint64]bool
 	expIno  uint64
 	empty   bool
+	bumps   int
 }
 
 func fingerprint(path string) string {
@@ -226,6 +227,12 @@ func c15Run(b *c15Box, hist []UOp) (sig, text string) {
 		sess.Walk(ctx, 0, 1, "sub")
 		sess.Walk(ctx, 1, 2, "deep")
 	}
+	// The export is a live directory: other activity changes the root's
+	// modification time after the fids were bound (whatever the server cached
+	// about the root - a qid version, a stat - is stale from here on).
+	bump := time.Now().Add(time.Duration(10+b.bumps) * time.Second)
+	b.bumps++
+	os.Chtimes(b.export, bump, bump)
 	for _, o := range hist {
 		var pan string
 		switch o.Kind {
